@@ -1,3 +1,4 @@
+#![feature(allocator_api)]
 #![allow(unused)]
 use vstd::prelude::*;
 use std::marker::PhantomData;
@@ -184,6 +185,26 @@ pub mod time {
     impl PartialEq for Date { #[verifier::external_body] fn eq(&self, o: &Date) -> (r: bool) { self.jd == o.jd } }
     impl Eq for Date {}
     impl PartialOrd for Date { #[verifier::external_body] fn partial_cmp(&self, o: &Date) -> (r: Option<std::cmp::Ordering>) { unimplemented!() } }
+    impl std::hash::Hash for Date { #[verifier::external_body] fn hash<H: std::hash::Hasher>(&self, state: &mut H) { unimplemented!() } }
+    pub uninterp spec fn spec_jan1(y: int) -> int;
+    /// trusted calendar facts (crate `time`): years are consecutive intervals of day numbers starting at Jan 1
+    pub broadcast proof fn axiom_year_interval(d: int, y: int)
+        requires date_min() <= d <= date_max(), -9999 <= y <= 9999
+        ensures (#[trigger] spec_year(d) == y) <==> (#[trigger] spec_jan1(y) <= d < spec_jan1(y + 1))
+    { admit(); }
+    pub broadcast proof fn axiom_jan1_range(y: int)
+        requires -9999 <= y <= 9999
+        ensures date_min() <= #[trigger] spec_jan1(y) < spec_jan1(y + 1) <= date_max() + 1
+    { admit(); }
+    pub broadcast proof fn axiom_date_range(d: Date)
+        ensures date_min() <= #[trigger] d@ <= date_max()
+    { admit(); }
+    impl Date {
+        #[verifier::external_body]
+        pub fn from_calendar_date(y: i32, m: Month, d: u8) -> (r: Result<Date, ()>)
+            ensures (m is January && d == 1 && -9999 <= y <= 9999) ==> r is Ok && r->Ok_0@ == spec_jan1(y as int)
+        { unimplemented!() }
+    }
     impl Ord for Date { #[verifier::external_body] fn cmp(&self, o: &Date) -> (r: std::cmp::Ordering) { unimplemented!() } }
     impl std::ops::Sub for Date { type Output = Duration;
         #[verifier::external_body] fn sub(self, rhs: Date) -> (r: Duration) ensures r.spec_days() == self@ - rhs@ { unimplemented!() } }
@@ -191,8 +212,14 @@ pub mod time {
         open spec fn obeys_sub_spec() -> bool { false }
         open spec fn sub_req(self, rhs: Date) -> bool { true }
         uninterp spec fn sub_spec(self, rhs: Date) -> Duration; }
+    pub broadcast proof fn axiom_date_key_model()
+        ensures #[trigger] vstd::std_specs::hash::obeys_key_model::<Date>()
+    { admit(); }
+    pub broadcast proof fn axiom_date_inj(a: Date, b: Date)
+        ensures #[trigger] a@ == #[trigger] b@ ==> a == b
+    { admit(); }
 }
-}
+} // verus!
 pub mod tracing {
     macro_rules! debug { ($($t:tt)*) => { () } }
     macro_rules! trace { ($($t:tt)*) => { () } }
